@@ -147,6 +147,10 @@ ErrorInvocations ==
 BigInvocations(BigPair) ==
   { [Base EXCEPT !.bin = b, !.stdin = s, !.nargs = IF s THEN 1 ELSE 2, !.p = p, !.pair = BigPair] : b \in Bins, s \in BOOLEAN, p \in BOOLEAN }
 
+(* edge pairs (a root replaced by an empty container, null, false, the empty string ...): every format, list and set reading *)
+EdgeInvocations(Pairs) ==
+  { [Base EXCEPT !.bin = b, !.set = st, !.f = f, !.pair = pr] : b \in Bins, st \in BOOLEAN, f \in {"", "jd", "patch", "merge"}, pr \in Pairs }
+
 TransInvocations(Pairs) ==
   { [Base EXCEPT !.bin = b, !.t = t, !.nargs = IF s THEN 0 ELSE 1, !.stdin = s, !.o = o, !.pair = pr] :
       b \in Bins, t \in Translations, s \in BOOLEAN, o \in BOOLEAN, pr \in Pairs }
